@@ -5,5 +5,6 @@ package mon
 
 import (
 	_ "verif/harness/mon/c01"
+	_ "verif/harness/mon/c02"
 	_ "verif/harness/mon/c19"
 )
